@@ -183,3 +183,61 @@ func init() {
 		}, nil)
 	})
 }
+
+func init() {
+	register("DNF", func(c *Ctx) {
+		parts := strings.Split(os.Getenv("DBG_FN"), ":")
+		for _, fn := range c.P.FuncsNamed(parts[0], parts[1], parts[2]) {
+			if fn.Origin() != nil {
+				continue
+			}
+			for _, s := range sitesOf(fn) {
+				d := c.P.mustHoldAt(s.Instr)
+				fmt.Println("SITE", s.CalleeName(), c.P.Pos(s.Pos()))
+				for _, cj := range d {
+					fmt.Println("     ∨", strings.Join(cj.list(), "  ∧  "))
+				}
+			}
+			for _, ret := range returnsOf(fn) {
+				if len(ret.Results) == 1 && ret.Results[0].Type().String() == "bool" {
+					fmt.Println("RETURNS-TRUE-WHEN")
+					for _, cj := range c.P.boolDNF(ret.Results[0], true) {
+						fmt.Println("     ∨", strings.Join(cj.list(), "  ∧  "))
+					}
+				}
+			}
+		}
+		c.ok("dbg", "x", "", "")
+		c.ok("dbg", "y", "", "")
+	})
+}
+
+func init() {
+	register("REACH", func(c *Ctx) {
+		parts := strings.Split(os.Getenv("DBG_FN"), ":")
+		for _, fn := range c.P.FuncsNamed(parts[0], parts[1], parts[2]) {
+			fmt.Println("FN", qname(fn), "origin?", fn.Origin() != nil, "edges", len(c.P.outEdges(fn)))
+			for _, e := range c.P.outEdges(fn) {
+				fmt.Println("   →", qname(e.Callee.Func), e.Callee.Func.Blocks != nil)
+			}
+		}
+		c.ok("dbg", "x", "", "")
+		c.ok("dbg", "y", "", "")
+	})
+}
+
+func init() {
+	register("REACH2", func(c *Ctx) {
+		pw := tmFunc(c.P, "ProcessWAL")
+		reach := c.P.Reachable([]*ssa.Function{pw}, func(caller, callee *ssa.Function) bool {
+			cut := !strings.HasPrefix(pkgRelOf(callee), "consensus/")
+			fmt.Println("  cut?", qname(callee), pkgRelOf(callee), cut)
+			return cut
+		})
+		for _, f := range reach.Funcs() {
+			fmt.Println(qname(f))
+		}
+		c.ok("dbg", "x", "", "")
+		c.ok("dbg", "y", "", "")
+	})
+}
